@@ -94,6 +94,10 @@ def _cfg_eval(expr, features, test):
         return False
     if expr == 'miri':
         return False
+    if expr == 'unix':
+        return True
+    if expr == 'windows':
+        return False
     m = re.match(r'feature\s*=\s*"([^"]+)"', expr)
     if m:
         return m.group(1) in features
@@ -129,6 +133,11 @@ def r4_resolve_cfg(text, features=(), test=False):
                     if keep:
                         out.extend(lines[i + 1:j + 1])
                     i = j + 1
+                    cnt += 1
+                    continue
+                if keep and not any(l.strip() for l in lines[:i]):
+                    # the cfg is the extracted item's own leading attribute and holds on the verified target (linux): drop the line
+                    i += 1
                     cnt += 1
                     continue
                 raise RuleError('cfg guards a multi-line construct: ' + g.strip()[:60])
@@ -447,3 +456,97 @@ def r18_guards_to_ifs(text, scrutinee):
             out.append('%s => %s' % (pat, blk))
     out.append('_ => {}')
     return text[:ob + 1] + '\n            ' + '\n            '.join(out) + '\n        ' + text[cb:], cnt
+
+
+def _match_arms(body):
+    """split the inside of a `match` block into (head, block) arms; expression arms are wrapped in braces."""
+    arms = []
+    i = 0
+    n = len(body)
+    while True:
+        while i < n and body[i] in ' \n\t,':
+            i += 1
+        if i >= n:
+            break
+        j = i
+        while not body.startswith('=>', j):
+            t = next_token_pos(body, j, n)
+            j = t if t is not None else j + 1
+            if j >= n:
+                raise RuleError('R20: arm without =>')
+        head = body[i:j].strip()
+        k = j + 2
+        while body[k].isspace():
+            k += 1
+        if body[k] == '{':
+            e = match_bracket(body, k, '{', '}')
+            blk = body[k:e + 1]
+            i = e + 1
+        else:
+            d = 0
+            e = k
+            while e < n:
+                t = next_token_pos(body, e, n)
+                if t is not None:
+                    e = t
+                    continue
+                c = body[e]
+                if c in '([{':
+                    d += 1
+                elif c in ')]}':
+                    d -= 1
+                elif c == ',' and d == 0:
+                    break
+                e += 1
+            blk = '{ ' + body[k:e].strip() + ' }'
+            i = e + 1
+        arms.append((head, blk))
+    return arms
+
+
+def r20_str_match(text, scrutinee, eq='str_eq'):
+    """`match S { "a" => A, "b" | "c" => B, other => D }` (string-literal patterns)  ->
+    `if str_eq(S,"a") {A} else if str_eq(S,"b") || str_eq(S,"c") {B} else { let other = S; D }`.
+    Arms keep their order, so the first matching arm wins exactly as in the match."""
+    m = re.search(r'match ' + re.escape(scrutinee) + r' \{', text)
+    if not m:
+        raise RuleError('R20: match %s not found' % scrutinee)
+    ob = m.end() - 1
+    cb = match_bracket(text, ob, '{', '}')
+    arms = _match_arms(text[ob + 1:cb])
+    out = []
+    for idx, (head, blk) in enumerate(arms):
+        lits = [h.strip() for h in head.split('|')]
+        if all(re.fullmatch(r'"[^"]*"', h) for h in lits):
+            cond = ' || '.join('%s(%s, %s)' % (eq, scrutinee, h) for h in lits)
+            out.append(('if ' if idx == 0 else 'else if ') + cond + ' ' + blk)
+        elif re.fullmatch(r'\w+', head) and idx == len(arms) - 1:
+            bind = '' if head == '_' else 'let %s = %s; ' % (head, scrutinee)
+            out.append('else { ' + bind + blk + ' }')
+        else:
+            raise RuleError('R20: unsupported pattern ' + head)
+    return text[:m.start()] + '\n        '.join(out) + text[cb + 1:], len(arms)
+
+
+def r20_str_opt_match(text, s_expr, o_expr, eq='str_eq'):
+    """`match (S, O) { ("a", Some(x)) => A, .., (_, _) => D }`  ->  `if str_eq(S,"a") && O.is_some() { let x = O.unwrap(); A } .. else D`."""
+    m = re.search(r'match \(' + re.escape(s_expr) + r',\s*' + re.escape(o_expr) + r'\) \{', text)
+    if not m:
+        raise RuleError('R20: tuple match not found')
+    ob = m.end() - 1
+    cb = match_bracket(text, ob, '{', '}')
+    arms = _match_arms(text[ob + 1:cb])
+    out = []
+    for idx, (head, blk) in enumerate(arms):
+        h = re.fullmatch(r'\(\s*("[^"]*")\s*,\s*Some\((\w+)\)\s*\)', head)
+        if h:
+            out.append(('if ' if idx == 0 else 'else if ') + '%s(%s, %s) && %s.is_some() { let %s = %s.unwrap(); %s }' % (eq, s_expr, h.group(1), o_expr, h.group(2), o_expr, blk))
+        elif re.fullmatch(r'\(\s*_\s*,\s*_\s*\)', head) and idx == len(arms) - 1:
+            out.append('else ' + blk)
+        elif re.fullmatch(r'\(\s*("[^"]*")\s*,\s*(None|_)\s*\)', head):
+            h = re.fullmatch(r'\(\s*("[^"]*")\s*,\s*(None|_)\s*\)', head)
+            cond = '%s(%s, %s)' % (eq, s_expr, h.group(1)) + (' && %s.is_none()' % o_expr if h.group(2) == 'None' else '')
+            out.append(('if ' if idx == 0 else 'else if ') + cond + ' ' + blk)
+        else:
+            raise RuleError('R20: unsupported tuple pattern ' + head)
+    return text[:m.start()] + '\n        '.join(out) + text[cb + 1:], len(arms)
